@@ -5,6 +5,8 @@ cd /verif
 for d in seeded/*/; do
   id=$(basename "$d"); P=${id%%-*}; V=${id##*-}
   [ -n "${ONLY:-}" ] && [ "$ONLY" != "$id" ] && continue
+  [ -n "${ONLY_RE:-}" ] && ! [[ $id =~ $ONLY_RE ]] && continue
+  touched="${touched:-} $P"
   if grep -q '"obsolete"' "/verif/$d/meta.json" 2>/dev/null; then echo "$id obsolete (no longer breaks the property on the current tree, see meta.json)"; continue; fi
   cd /repo
   [ -n "$(git status --porcelain -- hta)" ] && { echo "repo dirty"; exit 9; }
@@ -32,4 +34,4 @@ json.dump(m, open(p, "w"), indent=1)
 print(id_, "violations:", viol, "| deductive:", len(refuted), "| bounded:", len(set(bounded)))
 PY
 done
-cd /verif; for P in $(ls seeded | sed 's/-.*//' | sort -u); do ./check "$P" >/dev/null 2>&1; done   # restore evidence of the clean tree
+cd /verif; for P in $(echo ${touched:-} | tr ' ' '\n' | sort -u); do ./check "$P" >/dev/null 2>&1; done   # restore evidence of the clean tree
